@@ -206,7 +206,8 @@ func decodeString(s *rlp.Stream) (interface{}, error) {
 
 func decodeAsset(s *rlp.Stream) (interface{}, error) {
 	if isNil, err := decodeNil(s); isNil || err != nil {
-		return nil, err
+		// NewAssetCodeLog stores a *types.Asset even if there is no asset: redoAssetCode expects nothing else
+		return (*types.Asset)(nil), err
 	} else {
 		var result types.Asset
 		result.TotalSupply = new(big.Int)
